@@ -159,7 +159,11 @@ func main() {
 	if len(os.Args) < 2 {
 		fatal("usage: jdv <plan.json>")
 	}
-	raw, err := os.ReadFile(os.Args[1])
+	planFile := os.Args[1]
+	if os.Args[1] == "--apiref" {
+		planFile = os.Args[2]
+	}
+	raw, err := os.ReadFile(planFile)
 	if err != nil {
 		fatal("%v", err)
 	}
@@ -175,6 +179,10 @@ func main() {
 		fatal("unknown driver %q", p.Driver)
 	}
 	t := loadTable(p.Table)
+	if os.Args[1] == "--apiref" {
+		apiRef(&p, t)
+		return
+	}
 	w := NewWriter(p.Out, p.Shards)
 	var wg sync.WaitGroup
 	for k := 0; k < p.Shards; k++ {
